@@ -92,19 +92,6 @@ def primEqual : PrimVal → PrimVal → Bool
   | .bytes a, .bytes b => strEqual a b
   | _, _ => false
 
-/-- Go's `==` on the storage type: IEEE-754 on float64 (NaN != NaN, -0 == +0), identity elsewhere.
-    Until /repo commit 59db810 every generated setter and copy loop was guarded by it
-    (`if s.x != v { s.x = v }`); since then they call pkg.<T>Equal (`LeafOps.eq`), and `!=` is left
-    in one place that this model covers: the primitive key/value branch of copy<Multimap>. -/
-def primSame : PrimVal → PrimVal → Bool
-  | .f64 a, .f64 b => Flt.eq a b
-  | .u64 a, .u64 b => a == b
-  | .i64 a, .i64 b => a == b
-  | .bool a, .bool b => a == b
-  | .str a, .str b => a == b
-  | .bytes a, .bytes b => a == b
-  | _, _ => false
-
 /-- the zero value of the same kind -/
 def primZero : PrimVal → PrimVal
   | .u64 _ => .u64 0 | .i64 _ => .i64 0 | .bool _ => .bool false | .f64 _ => .f64 0
@@ -170,11 +157,10 @@ def typOf (k : BitVec 8) : Word := k.setWidth 64 + 1
 structure LeafOps (α : Type) where
   cmp : α → α → Int        -- pkg.<T>Compare
   eq : α → α → Bool        -- pkg.<T>Equal: IsEqual, and (negated) the guard of every generated setter
-  same : α → α → Bool      -- Go's `==` on the type: only copy<Multimap> on primitive keys/values
   zero : α → α             -- the Go zero value of the same type
 
 def primOps : LeafOps PrimVal :=
-  { cmp := primCompare, eq := primEqual, same := primSame, zero := primZero }
+  { cmp := primCompare, eq := primEqual, zero := primZero }
 
 /-- a generated setter: `if !pkg.<T>Equal(dst, src) { dst = src }` -/
 def LeafOps.set (o : LeafOps α) (dst src : α) : α := if o.eq dst src then dst else src
@@ -343,11 +329,9 @@ def clone (o : LeafOps α) : Value α → Value α
 /-! ### copy<T>(dst, src) = dst.CopyFrom(src) -/
 
 /-- the guard of copy<Multimap> on one key or value: composite `dst.IsEqual(src)`, primitive
-    `!(dst != src)` with Go's operator -/
-def keepElem (o : LeafOps α) (d s : Value α) : Bool :=
-  match d, s with
-  | .leaf x, .leaf y => o.same x y
-  | d, s => isEqual o d s
+    `pkg.<T>Equal(dst, src)` - which is what `isEqual` is on two leaves. (Until /repo d9a1aae the
+    primitive branch used Go's `!=`: a -0.0 was not copied over a +0.0.) -/
+def keepElem (o : LeafOps α) (d s : Value α) : Bool := isEqual o d s
 
 mutual
 /-- copy<T>(dst, src), the new state of dst. Transcribed per template; `dst` is assumed never to
@@ -387,7 +371,7 @@ def copyFromValues (o : LeafOps α) : Values α → Values α → Values α
   | .nil, .cons s srest => .cons (copyFrom o (zero o s) s) (copyFromValues o .nil srest)
   | _, .nil => .nil
 /-- copy<Multimap>: EnsureLen, then per element `if !dst.IsEqual(src) { copy }`
-    (primitive keys/values: `if dst != src { dst = src }`) -/
+    (primitive keys/values: `if !pkg.<T>Equal(dst, src) { dst = src }`) -/
 def copyFromPairs (o : LeafOps α) : Pairs α → Pairs α → Pairs α
   | .cons dk dv drest, .cons sk sv srest =>
     .cons (if keepElem o dk sk then dk else copyFrom o dk sk)
@@ -420,33 +404,5 @@ def Pairs.All (P : α → Prop) : Pairs α → Prop
   | .nil => True
   | .cons k v rest => k.All P ∧ v.All P ∧ rest.All P
 end
-
-mutual
-/-- `Q` holds for every primitive that is directly a key or a value of a multimap (the only place
-    where the generated copy still uses Go's `!=`) -/
-def Value.MapPrims (Q : α → Prop) : Value α → Prop
-  | .struct fs => fs.MapPrims Q
-  | .choice _ v => v.MapPrims Q
-  | .arr es => es.MapPrims Q
-  | .mmap ps => ps.MapPrims Q
-  | _ => True
-def Fields.MapPrims (Q : α → Prop) : Fields α → Prop
-  | .nil => True
-  | .cons _ v rest => v.MapPrims Q ∧ rest.MapPrims Q
-def Values.MapPrims (Q : α → Prop) : Values α → Prop
-  | .nil => True
-  | .cons v rest => v.MapPrims Q ∧ rest.MapPrims Q
-def Pairs.MapPrims (Q : α → Prop) : Pairs α → Prop
-  | .nil => True
-  | .cons k v rest =>
-    (k.MapPrims Q ∧ v.MapPrims Q ∧ rest.MapPrims Q) ∧
-      (∀ a, k = .leaf a → Q a) ∧ (∀ a, v = .leaf a → Q a)
-end
-
-/-- a float leaf that is not the negative zero (every other leaf qualifies, NaNs included): what a
-    float used directly as multimap key/value must satisfy for the `!=`-guarded copy to be exact -/
-def PrimVal.notNegZero : PrimVal → Prop
-  | .f64 w => Flt.isNegZero w = false
-  | _ => True
 
 end Stef.Cmp
